@@ -56,6 +56,97 @@ func unliteralize(filename string, src []byte) ([]byte, int) {
 		relabelled++
 		return true
 	})
+	// a tagless switch whose case expressions contain a literal becomes an if / else chain (one block per else, so
+	// that the literal can be unfolded right where its case is evaluated); not when a clause falls through, lists
+	// several expressions with a literal among them, or a bare `break` leaves the switch
+	containsLit := func(e ast.Expr) bool {
+		found := false
+		ast.Inspect(e, func(n ast.Node) bool {
+			if call, ok := n.(*ast.CallExpr); ok {
+				if _, isLit := ast.Unparen(call.Fun).(*ast.FuncLit); isLit {
+					found = true
+				}
+			}
+			return !found
+		})
+		return found
+	}
+	var breaksOut func(n ast.Node) bool
+	breaksOut = func(n ast.Node) bool {
+		out := false
+		ast.Inspect(n, func(m ast.Node) bool {
+			switch x := m.(type) {
+			case *ast.ForStmt, *ast.RangeStmt, *ast.SwitchStmt, *ast.TypeSwitchStmt, *ast.SelectStmt, *ast.FuncLit:
+				return m == n
+			case *ast.BranchStmt:
+				if (x.Tok == token.BREAK && x.Label == nil) || x.Tok == token.FALLTHROUGH {
+					out = true
+				}
+			}
+			return !out
+		})
+		return out
+	}
+	astutil.Apply(f, nil, func(c *astutil.Cursor) bool {
+		sw, ok := c.Node().(*ast.SwitchStmt)
+		if !ok || sw.Init != nil || sw.Tag != nil || c.Index() < 0 {
+			return true
+		}
+		if _, labelled := c.Parent().(*ast.LabeledStmt); labelled {
+			return true
+		}
+		any := false
+		var def *ast.CaseClause
+		var clauses []*ast.CaseClause
+		for _, st := range sw.Body.List {
+			cc := st.(*ast.CaseClause)
+			if cc.List == nil {
+				def = cc
+			} else {
+				clauses = append(clauses, cc)
+				for _, e := range cc.List {
+					if containsLit(e) {
+						any = true
+						if len(cc.List) != 1 {
+							return true
+						}
+					}
+				}
+			}
+			for _, b := range cc.Body {
+				if breaksOut(b) {
+					return true
+				}
+			}
+		}
+		if !any || len(clauses) == 0 {
+			return true
+		}
+		// the default clause may stand anywhere; the cases are tried in source order
+		var tail ast.Stmt
+		if def != nil {
+			tail = &ast.BlockStmt{List: def.Body}
+		}
+		for i := len(clauses) - 1; i >= 0; i-- {
+			cc := clauses[i]
+			var cond ast.Expr = cc.List[0]
+			for _, e := range cc.List[1:] {
+				cond = &ast.BinaryExpr{X: cond, Op: token.LOR, Y: e}
+			}
+			ifs := &ast.IfStmt{Cond: cond, Body: &ast.BlockStmt{List: cc.Body}}
+			if tail != nil {
+				if blk, isBlk := tail.(*ast.BlockStmt); isBlk {
+					ifs.Else = blk
+				} else {
+					ifs.Else = &ast.BlockStmt{List: []ast.Stmt{tail}}
+				}
+			}
+			tail = ifs
+		}
+		c.Replace(tail)
+		relabelled++ // the file changed
+		return true
+	})
 	// the IIFE of a statement, if the statement has one of the supported shapes: the call is the whole expression
 	// (modulo parentheses and !) of an expression statement, of the single right-hand side of an assignment, of the
 	// single result of a return, or of the condition of an if without init statement. slot is where it sits.
@@ -86,6 +177,7 @@ func unliteralize(filename string, src []byte) ([]byte, int) {
 		})
 		return ok
 	}
+	guards := map[*ast.Expr]ast.Expr{}
 	var first func(e *ast.Expr) (slot *ast.Expr, simple bool)
 	first = func(e *ast.Expr) (*ast.Expr, bool) {
 		if callFree(*e) {
@@ -132,7 +224,23 @@ func unliteralize(filename string, src []byte) ([]byte, int) {
 			return s, false
 		case *ast.BinaryExpr:
 			s, simple := first(&x.X)
-			if s != nil || !simple || x.Op == token.LAND || x.Op == token.LOR {
+			if s != nil || !simple {
+				return s, false
+			}
+			if x.Op == token.LAND || x.Op == token.LOR {
+				// the right operand is evaluated only when the (call-free) left one does not decide: the literal's
+				// body is unfolded under that very condition, its result defaulting to the zero value otherwise
+				s, _ := first(&x.Y)
+				if s != nil {
+					var g ast.Expr = &ast.ParenExpr{X: x.X}
+					if x.Op == token.LOR {
+						g = &ast.UnaryExpr{Op: token.NOT, X: g}
+					}
+					if inner, ok := guards[s]; ok {
+						g = &ast.BinaryExpr{X: g, Op: token.LAND, Y: &ast.ParenExpr{X: inner}}
+					}
+					guards[s] = g
+				}
 				return s, false
 			}
 			s, simple = first(&x.Y)
@@ -162,12 +270,28 @@ func unliteralize(filename string, src []byte) ([]byte, int) {
 		return nil, false
 	}
 	find := func(e *ast.Expr) (**ast.CallExpr, *ast.Expr) {
+		for k := range guards {
+			delete(guards, k)
+		}
 		slot, _ := first(e)
 		if slot == nil {
 			return nil, nil
 		}
 		call := (*slot).(*ast.CallExpr)
 		return &call, slot
+	}
+	// firstOf: the first literal in a list of expressions evaluated left to right (what precedes it must be free of calls)
+	firstOf := func(list []ast.Expr) *ast.Expr {
+		for i := range list {
+			s, simple := first(&list[i])
+			if s != nil {
+				return &list[i]
+			}
+			if !simple {
+				return nil
+			}
+		}
+		return nil
 	}
 	iifeSlot := func(s ast.Stmt) (*ast.CallExpr, *ast.FuncLit, *ast.Expr) {
 		var e *ast.Expr
@@ -189,10 +313,14 @@ func unliteralize(filename string, src []byte) ([]byte, int) {
 			}
 			if len(x.Rhs) == 1 && (lhsSimple || isIIFE(x.Rhs[0])) {
 				e = &x.Rhs[0]
+			} else if len(x.Rhs) > 1 && lhsSimple {
+				e = firstOf(x.Rhs)
 			}
 		case *ast.ReturnStmt:
 			if len(x.Results) == 1 {
 				e = &x.Results[0]
+			} else if len(x.Results) > 1 {
+				e = firstOf(x.Results)
 			}
 		case *ast.IfStmt:
 			if x.Init == nil {
@@ -356,14 +484,14 @@ func unliteralize(filename string, src []byte) ([]byte, int) {
 			*slot = results[0]
 			return x
 		case *ast.AssignStmt:
-			if slot == &x.Rhs[0] {
+			if len(x.Rhs) == 1 && slot == &x.Rhs[0] {
 				x.Rhs = results
 				return x
 			}
 			*slot = results[0]
 			return x
 		case *ast.ReturnStmt:
-			if slot == &x.Results[0] {
+			if len(x.Results) == 1 && slot == &x.Results[0] {
 				x.Results = results
 				return x
 			}
@@ -445,15 +573,25 @@ func unliteralize(filename string, src []byte) ([]byte, int) {
 			case *ast.ExprStmt:
 				direct = slot == &x.X
 			case *ast.AssignStmt:
-				direct = slot == &x.Rhs[0]
+				direct = len(x.Rhs) == 1 && slot == &x.Rhs[0]
 			case *ast.ReturnStmt:
-				direct = slot == &x.Results[0]
+				direct = len(x.Results) == 1 && slot == &x.Results[0]
 			}
 			if !direct && litResultCount(lit) != 1 {
 				return true
 			}
 		}
+		_, _, gslot := iifeSlot(st)
+		guard := guards[gslot]
+		if guard != nil && litResultCount(lit) != 1 {
+			return true
+		}
 		pre, results := build(lit, call)
+		if guard != nil {
+			// declarations first, the body under the condition that the operand is evaluated at all
+			nres := len(results)
+			pre = append(append([]ast.Stmt{}, pre[:nres]...), &ast.IfStmt{Cond: guard, Body: &ast.BlockStmt{List: pre[nres:]}})
+		}
 		for _, p := range pre {
 			c.InsertBefore(p)
 		}
